@@ -29,7 +29,8 @@ CLAIM = dict(
     "size, origin and destination voxel: identity map => identical array, whole-voxel translation => zero-filled shift "
     "(also larger than the image) in coordinate / voxel / voxel-centre mode (2-D and 3-D), quarter turn => rot90 "
     "(2-D, coordinate and voxel-centre mode), destination metadata. The voxel-centre shift needs floor rounding in the point "
-    "constructors; for astype(int) truncation the negation is proved by witness and the oracle reports the replicated border.",
+    "constructors: the rounding is re-tabulated from the running constructors on every run (currently floor, so the shift theorem "
+    "holds in all three modes for the code as it is); for astype(int) truncation the negation is proved by witness.",
     note="scipy from_rotvec matrices, numpy fancy assignment and float rounding are tied by correspondence (1e-12 / exact on "
     "dyadic inputs / breakpoint-aware on true rotations), not proved; quarter turn in *voxel* mode is decided by float noise "
     "of cos(pi/2) on rounding breakpoints (known finding, observed only); the Powell fit is out of scope (parameters set "
